@@ -68,7 +68,13 @@ var statusCmd = &cobra.Command{
 		}
 
 		// compare index with HEAD commit
-		treeObj, err := object.GetObject(client.RootGoitPath, client.Head.Commit.Tree)
+		var treeObj *object.Object
+		if client.Head.Commit == nil {
+			// no commit yet, so compare index with the empty tree
+			treeObj, err = object.NewObject(object.TreeObject, []byte{})
+		} else {
+			treeObj, err = object.GetObject(client.RootGoitPath, client.Head.Commit.Tree)
+		}
 		if err != nil {
 			return fmt.Errorf("fail to get tree object: %w", err)
 		}
